@@ -86,6 +86,10 @@ func (l *lgen) starLines() geom.MultiLineString {
 
 func boundaryGen(r *rand.Rand, n int, tier string, emit func(Case)) {
 	for i := 0; i < n; i++ {
+		if r.Intn(12) == 0 {
+			emit(sliverCase(r))
+			continue
+		}
 		l := &lgen{r: r, N: 3 + r.Intn(6)}
 		if r.Intn(5) == 0 {
 			l.N = 9 + r.Intn(8)
@@ -110,11 +114,17 @@ func boundaryGen(r *rand.Rand, n int, tier string, emit func(Case)) {
 }
 
 func boundaryOnPanic(c Case) Event {
+	if _, ok := c["kind"]; ok {
+		return Event{"kind": "sliver", "k": 1, "hu": 1, "wkt": "", "empty": false, "fin": false, "exact": false, "xu": 0, "yu": 0, "isempty": false, "dim": 2}
+	}
 	return Event{"g": []*flat{}, "tree": Event{"t": "Point", "c": []Event{}}, "dim": 0, "isempty": false, "bnd": []*flat{}, "bbempty": false,
 		"pos": Event{"empty": true, "q": []int{0, 0}, "exact": false}}
 }
 
 func boundaryExec(c Case) Event {
+	if _, ok := c["kind"]; ok {
+		return sliverPOS(c)
+	}
 	ev := boundaryOnPanic(c)
 	g0 := mustWKT(c.str("wa"))
 	f, _ := mapOf(c)
